@@ -27,6 +27,8 @@ def run(ctx):
     add('memblock.ubsan.tuple0', 'w_memblock.cpp', ['TUPLE=0'], 'h_memblock', [0, 1, 0, 0, 0, 0], 200, 'ubsan', max_paths=3000)
     add('deep.ubsan.d1.h52.n2', 'w_tree.cpp', D(1, 52, 2, 3), 'h_c06', [-2, -1, 1, -1, 0, 0], 200, 'ubsan', 'Dim 1, height 52: the largest height at which every half-lattice position is exactly representable in double')
     add('deep.ubsan.d2.h32.n2', 'w_tree.cpp', D(2, 32, 2, 3), 'h_c06', [2, -1, 1, -1, 0, 0], 200, 'ubsan', 'Dim 2 at the largest height whose indices fit 62 bits')
+    add('empty.ubsan.d2.h3', 'w_tree.cpp', D(2, 3, 1, 1), 'h_empty', [-2, -1, 0, -2, 0, 0], 60, 'ubsan', 'tree built from an empty particle set: build, query, execute, rebuild, export, destroy')
+    add('empty.tsm.ubsan.d2.h3', 'w_tsm.cpp', DT(2, 3, 1, 1, 1), 'h_tsm_empty', [-2, -1, 0, -2, 0, 0], 120, 'ubsan', 'target/source mode with no sources, no targets, or neither')
     add('omp.ubsan.d1.h4.n3', 'w_omp.cpp', D(1, 4, 3, 1), 'h_c03', [-2, -1, 1, -1, 0, 0], 240, 'ubsan', 'OpenMP executor under undeferred / deferred schedules: heap-allocated index vectors freed exactly once, no dead-frame access',
         hook_opts=dict(omp_threads=4, no_native_replay=True), diff=0, **OMP)
     if not q:
